@@ -82,7 +82,11 @@ func c07Run(c c07Case, base string) (res c07Result) {
 				sb.WriteString(l)
 				sb.WriteString("\n")
 			}
-			os.WriteFile(filepath.Join(cdir, name), []byte(sb.String()), 0644)
+			content := sb.String()
+			if rng.Intn(3) == 0 {
+				content = strings.TrimSuffix(content, "\n") // a file whose last line is not terminated
+			}
+			os.WriteFile(filepath.Join(cdir, name), []byte(content), 0644)
 			source[hosts[ci]+"|"+name] = lines
 			total += nlines
 		}
